@@ -12,8 +12,9 @@ we prove what these two Boolean checks *give* (`raceFree_sound`, `instanceOfPool
 
 Outside the model (partial): the Go memory model and scheduler, pre-emption inside a step, what a
 caller-supplied `DistModel` does internally, floating point (the values `f j` are opaque here — C07).
-The first half of C08 (column permutation / replication / weights / reverse complement) is checked on
-the implementation by metamorphic pairs (`driver/props/c08_pool.py`), not proved here.
+The first half of C08 (column permutation / replication / weights / reverse complement / row permutation)
+is proved over the reals in `Props/C08Cols.lean` (a Mathlib module, kept apart from this core-only file) and
+checked on the implementation by metamorphic pairs (`driver/props/c08_pool.py`).
 -/
 namespace Gv.Props.C08
 open Gv.Model.Pool Gv.Model.Facts Gv.Proofs.PoolCore
